@@ -18,7 +18,9 @@ RULE = ('(a) AutomatonStepper over synthesized Streett implementations of '
         'raise ValueError exactly when no such values exist; init() must be '
         'completable to a state of init[impl]; then breadth-first over ALL '
         'admissible environment input sequences up to length 4 from every '
-        'initial state, each step re-checked against the table. (b) '
+        'initial state, each step re-checked against the table; EnumStrategyStepper over '
+        'the enumerated graph of the same implementation returns the '
+        'output part of an initial node / of a successor at every node. (b) '
         'assemblies of 2-3 components from a menu with deliberately '
         'colliding names (a component name that is a prefix of a visible '
         'variable, equal hidden names in different components, a real '
@@ -214,6 +216,43 @@ def run_stepper(case, acc):
     acc.count('transitions', ntr)
     acc.count('traces_validated_against_impl', len(seen))
     acc.ev(dict(c=case), nontrivial=enabled > 0 and disabled > 0, n=n)
+    check_enum_stepper(case, acc, aut, gm, q, full, impl_vars)
+
+
+def check_enum_stepper(case, acc, aut, gm, q, full, impl_vars):
+    """EnumStrategyStepper over the enumerated graph of the same
+    implementation: init() and step() return the output part of an initial
+    node / of a successor of the node that matches the state."""
+    import omega.steps as steps
+    from omega.games import enumeration as enum
+    from vlib.props.c12 import _reads_sys_next
+    if case['fam'] in ('A3', 'B6') or _reads_sys_next(gm):
+        return      # the enumerator's premises (see C12)
+    try:
+        g = enum.action_to_steps(aut, 'env', 'impl', qinit=q)
+    except AssertionError:
+        acc.count('enum_stepper_skipped')
+        return
+    g.inputs = list(gm.env)
+    g.outputs = list(impl_vars)
+    st = steps.EnumStrategyStepper(g)
+    outs = lambda d: {k: d[k] for k in impl_vars}  # noqa
+    r0 = st.init()
+    if r0 not in [outs(g.nodes[u]) for u in g.initial_nodes]:
+        acc.violation('enum_stepper_init_not_an_initial_node', case,
+                      detail=dict(returned=r0))
+        return
+    for u in g:
+        if not list(g.successors(u)):
+            continue
+        r = st.step(dict(g.nodes[u]))
+        acc.count('enum_stepper_calls')
+        if r not in [outs(g.nodes[v]) for v in g.successors(u)]:
+            acc.violation('enum_stepper_step_not_a_successor', case,
+                          detail=dict(state=g.nodes[u], returned=r,
+                                      successors=[g.nodes[v]
+                                                  for v in g.successors(u)]))
+            return
 
 
 # -------------------------------------------------------------- assemblies
